@@ -470,56 +470,55 @@ impl<T: Clone + Eq + Debug + Default> WrappedBlock<T> {
         let mut lineleft = self.width - self.line.len;
         for element in self.word.remove_items() {
             if let Str(piece) = element {
-                let w = piece.width();
-                let mut wpos = 0; // Width of already-copied pieces
                 let mut bpos = 0; // Byte position of already-copied pieces
-                                  //
-                while w - wpos > lineleft {
-                    let mut split_idx = 0;
-                    for (idx, c) in piece.s[bpos..].char_indices() {
-                        let c_w = UnicodeWidthChar::width(c).unwrap();
+                for (idx, c) in piece.s.char_indices() {
+                    let c_w = UnicodeWidthChar::width(c).unwrap();
+                    if c_w <= lineleft {
+                        lineleft -= c_w;
+                        continue;
+                    }
+                    if idx > bpos || self.line.width() > 0 {
+                        // Break the line before this character.
+                        if idx > bpos {
+                            self.line.push(Str(TaggedString {
+                                s: piece.s[bpos..idx].into(),
+                                tag: piece.tag.clone(),
+                            }));
+                            bpos = idx;
+                        }
+                        self.force_flush_line();
+                        lineleft = self.width;
                         if c_w <= lineleft {
                             lineleft -= c_w;
-                            wpos += c_w;
-                        } else {
-                            // Check if we've made no progress, for example
-                            // if the first character is 2 cells wide and we
-                            // only have a width of 1.
-                            if idx == 0 && self.line.width() == 0 {
-                                if self.allow_overflow {
-                                    split_idx = c.len_utf8();
-                                    wpos += c_w;
-                                    break;
-                                } else {
-                                    return Err(TooNarrow);
-                                }
-                            }
-                            split_idx = idx;
-                            break;
+                            continue;
                         }
                     }
-                    self.line.push(Str(TaggedString {
-                        s: piece.s[bpos..bpos + split_idx].into(),
-                        tag: piece.tag.clone(),
-                    }));
-                    bpos += split_idx;
-                    self.force_flush_line();
-                    lineleft = self.width;
+                    // No progress is possible, for example if the character
+                    // is 2 cells wide and we only have a width of 1.
+                    if self.allow_overflow {
+                        // The line is now full; any zero-width characters
+                        // (combining marks) which follow stay with it.
+                        lineleft = 0;
+                    } else {
+                        return Err(TooNarrow);
+                    }
                 }
                 if bpos == 0 {
                     self.line.push(Str(piece));
-                    lineleft -= w;
-                } else if bpos < piece.s.len() {
+                } else {
                     self.line.push(Str(TaggedString {
                         s: piece.s[bpos..].into(),
                         tag: piece.tag,
                     }));
-                    lineleft -= w.saturating_sub(wpos);
                 }
             } else {
                 // Zero-width markers (fragment starts) stay with the word.
                 self.line.push(element);
             }
+        }
+        if self.line.width() > self.width {
+            // An overflowing line is complete.
+            self.force_flush_line();
         }
         Ok(())
     }
@@ -571,11 +570,17 @@ impl<T: Clone + Eq + Debug + Default> WrappedBlock<T> {
 
     /// If there are any pending fragment starts, return them.
     pub fn take_trailing_fragments(&mut self) -> Vec<TaggedLineElement<T>> {
-        if self.word.is_empty() {
-            std::mem::take(&mut self.word).v
-        } else {
-            Default::default()
+        let mut result = Vec::new();
+        // Markers left on an otherwise empty unfinished line (for example
+        // after a hard-wrapped word) come first...
+        if self.line.is_empty() {
+            result.extend(self.line.remove_items());
         }
+        // ...followed by those waiting for a next word.
+        if self.word.is_empty() {
+            result.extend(std::mem::take(&mut self.word).v);
+        }
+        result
     }
 
     /// Consume self and return vector of lines including annotations.
@@ -1203,6 +1208,9 @@ impl<D: TextDecorator> SubRenderer<D> {
     /// Flushes the current wrapped block into the lines.
     fn flush_wrapping(&mut self) -> Result<()> {
         if let Some(mut w) = self.wrapping.take() {
+            // Finish the last word and line first, so that any markers which
+            // end up alone on the unfinished line are picked up as well.
+            w.flush()?;
             let frags = w.take_trailing_fragments();
             self.extend_lines(w.into_lines()?.into_iter().map(RenderLine::Text));
 
